@@ -3,17 +3,17 @@ CONSTANTS
   Sinks = {"s1", "s2", "s3"}
   Fallbacks = {"fb", "none"}
   FbStartStop = {TRUE}
-  Rules <- RulesRoute
-  Events <- EventsA
-  BadRules <- BadNone
-  MaxRejected = 0
-  MaxRules = 3
+  Rules <- RulesRej
+  Events <- EventsRej
+  BadRules <- BadAll
+  MaxRejected = 1
+  MaxRules = 1
   MaxStatus = 1
-  MaxRuns = 1
-  RulesInRun = FALSE
-  Export = TRUE
-  Variant = "asRequired"
-CONSTRAINT ExportC
+  MaxRuns = 2
+  RulesInRun = TRUE
+  Export = FALSE
+  Variant = "registerFirst"
+VIEW ViewNoHist
 INVARIANT OneDestination
 INVARIANT PushPopInverse
 INVARIANT StartStopExact
